@@ -64,7 +64,7 @@ pub fn run_c01(cx: &Cx) -> PropResult {
     let per_shard = cx.n(2_500, 120_000);
     let acc = parallel(cx, &|shard, acc| {
         let strat = tv_strategy(depth, ValCfg::default());
-        drive(derive_seed(cx.seed, cx.prop, shard as u64, 0), &strat, per_shard, acc, &|c: &TV| to_json(c), &mut |c, a, r| check_c01(c, a, r));
+        drive(crate::run::tag_seed(derive_seed(cx.seed, cx.prop, shard as u64, 0), 0), &strat, per_shard, acc, &|c: &TV| to_json(c), &mut |c, a, r| check_c01(c, a, r));
     });
     let mut r = PropResult::new(
         acc,
@@ -136,7 +136,7 @@ pub fn run_c04(cx: &Cx) -> PropResult {
     let per_shard = cx.n(2_500, 120_000);
     let acc = parallel(cx, &|shard, acc| {
         let strat = tv_strategy(depth, ValCfg::default());
-        drive(derive_seed(cx.seed, cx.prop, shard as u64, 0), &strat, per_shard, acc, &|c: &TV| to_json(c), &mut |c, a, r| check_c04(c, a, r));
+        drive(crate::run::tag_seed(derive_seed(cx.seed, cx.prop, shard as u64, 0), 0), &strat, per_shard, acc, &|c: &TV| to_json(c), &mut |c, a, r| check_c04(c, a, r));
     });
     let mut r = PropResult::new(
         acc,
@@ -150,4 +150,30 @@ pub fn run_c04(cx: &Cx) -> PropResult {
 pub fn replay_c04(case: &Value) -> Verdict {
     let c: TV = serde_json::from_value(case.clone()).expect("replay case");
     check_c04(&c, &mut Acc::new(), false)
+}
+
+/// type expressions including derived declarations (interpreted at run time): at the root and under containers
+pub fn ty_strategy_ext(depth: u32, with_dedup: bool) -> BoxedStrategy<Ty> {
+    use std::sync::Arc;
+    let roots: Vec<BoxedStrategy<Ty>> = rooted_tys(depth).into_iter().map(|(_, s)| s).collect();
+    let adt = vmodel::declgen::adt_ty_strategy(with_dedup);
+    prop_oneof![
+        6 => Union::new(roots),
+        4 => adt.clone(),
+        1 => adt.clone().prop_map(|t| Ty::Vec(Arc::new(t))),
+        1 => adt.clone().prop_map(|t| Ty::Tuple(vec![Ty::U16, t, Ty::Str])),
+        1 => adt.clone().prop_map(|t| Ty::Option(Arc::new(t))),
+        1 => adt.prop_map(|t| Ty::BTreeMap(Arc::new(Ty::U8), Arc::new(t))),
+    ]
+    .boxed()
+}
+
+pub fn tv_strategy_ext(depth: u32, cfg: ValCfg, with_dedup: bool) -> BoxedStrategy<TV> {
+    ty_strategy_ext(depth, with_dedup)
+        .prop_flat_map(move |ty| {
+            let vs = val_strategy(&ty, cfg);
+            (Just(ty), vs, proptest::collection::vec(any::<bool>(), 0..10))
+        })
+        .prop_map(|(ty, val, forms)| TV { ty, val, forms })
+        .boxed()
 }
